@@ -8,6 +8,7 @@ import (
 
 	"verifharness/corr"
 	"verifharness/suites/compat"
+	"verifharness/suites/e2e"
 	"verifharness/suites/errs"
 	"verifharness/suites/gen"
 	httpsuite "verifharness/suites/http"
@@ -29,6 +30,7 @@ var suites = map[string]func(*corr.Out){
 	"migrate": migrate.Run,
 	"pool":    pool.Run,
 	"reader":  reader.Run,
+	"e2e":     e2e.Run,
 	"stream":  streamsuite.Run,
 }
 
